@@ -48,7 +48,7 @@ func init() {
 			"(R1) for every last-writer-wins register of ring.Desc and ring.PartitionRingDesc the statements that copy incoming data over stored data execute exactly on " +
 			"'entry missing OR incoming timestamp newer OR (equal timestamps AND incoming is a tombstone AND stored is not)', decided by exhaustive evaluation of the guard over the finite set of orderings; " +
 			"(R2) a receiver-map store executes iff the same key is recorded in the returned change, nil is returned iff nothing was recorded; (R3) normalisation dominates the merge loop; " +
-			"(R4) every other store and every use of the clock parameter is control-dependent on localCAS. Also: (R5) one merge path: Merge is a pure delegation to the analysed merge function, and the KV store hands the decoded incoming value to Merge untouched; (R6) what is merged is what was received and what is sent is what is stored: queued updates are consumed by their key's worker only, push/pull encodes the stored value afresh (shared with C06.R10, C04.R6). NOT decided: the algebraic laws over all operand triples, token conflict resolution algebra, delta sufficiency beyond R2.",
+			"(R4) every other store and every use of the clock parameter is control-dependent on localCAS. Also: (R5) one merge path: Merge is a pure delegation to the analysed merge function, and the KV store hands the decoded incoming value to Merge untouched; (R6) what is merged is what was received and what is sent is what is stored: queued updates are consumed by their key's worker only, push/pull encodes the stored value afresh (shared with C06.R10, C04.R6). (R7) every received update reaches the store's merge and what the merge accepted is what is re-gossiped (shared with C06.R3). NOT decided: the algebraic laws over all operand triples, token conflict resolution algebra, delta sufficiency beyond R2.",
 		Assumptions: []string{"go/cfg models control flow of the merge functions faithfully", "fields of the incoming/stored entries are not modified between the guard and the copy other than by the statements classified"},
 	}
 }
